@@ -131,7 +131,7 @@ pub fn cfg_for(driver: &str, tier: &str) -> Option<(Cfg, u32)> {
             c.top_dispatch_none = true;
             c.initial_sets = vec![vec![KindSpec::Chan], vec![KindSpec::Chan, KindSpec::Ping], vec![KindSpec::SyncChan(1)], vec![KindSpec::SyncChan(2), KindSpec::SyncChan(0)]];
             c.max_actors = 2;
-            c.depth = if q { 7 } else { 9 };
+            c.depth = if q { 6 } else { 9 };
             c.top_remove = false;
             c.top_update = false;
             c.top_clone = true;
@@ -183,7 +183,10 @@ pub fn cfg_for(driver: &str, tier: &str) -> Option<(Cfg, u32)> {
                 vec![KindSpec::Timer(10)],
                 vec![KindSpec::Timer(i8::MAX)],
                 vec![KindSpec::Timer(i8::MAX), KindSpec::Timer(2)],
-            ] {
+            ]
+            .into_iter()
+            .take(if q { 5 } else { 7 })
+            {
                 let mut s = idle.clone();
                 s.extend(timers);
                 sets.push(s);
@@ -233,6 +236,7 @@ pub fn cfg_for(driver: &str, tier: &str) -> Option<(Cfg, u32)> {
             c.initial_sets = vec![vec![KindSpec::Exec], vec![KindSpec::Exec, KindSpec::Ping]];
             c.max_actors = 2;
             c.depth = if q { 6 } else { 8 };
+            c.max_cb_ops = 1;
             c.top_update = true;
             c.cb_cause = true;
             c.exec_pending = true;
